@@ -43,6 +43,8 @@ class Gen:
         self.dropped = set()
         self.coal = set()
         self.kinds = {}
+        self.clone_of = {}
+        self.swc = set()                            # cells whose value derives from a switch_c result
 
     def fresh(self, pfx):
         self.k += 1
@@ -111,11 +113,14 @@ class Gen:
             n = self.fresh("s"); L.append(f"value {n} {c}"); self.add_stream(n, self.t(c))
         elif kind == "mapc" and c:
             n = self.fresh("c"); L.append(f"mapc {n} {c} {self.small()}"); self.add_cell(n, self.t(c))
+            if c in self.swc: self.swc.add(n)
         elif kind == "lift2" and c and c2:
             n = self.fresh("c"); L.append(f"lift2 {n} {c} {c2} {self.op()}"); self.add_cell(n, self.t(c, c2))
+            if c in self.swc or c2 in self.swc: self.swc.add(n)
         elif kind == "liftn" and c:
             cs = [self.C() for _ in range(r.randint(3, 6))]
             n = self.fresh("c"); L.append(f"liftn {n} {' '.join(cs)}"); self.add_cell(n, self.t(*cs))
+            if any(x in self.swc for x in cs): self.swc.add(n)
         elif kind == "accum" and s:
             n = self.fresh("c"); L.append(f"accum {n} {s} {self.small()} {self.op()}"); self.add_cell(n, self.t(s))
         elif kind == "collect" and s:
@@ -129,7 +134,7 @@ class Gen:
             n = self.fresh("s"); L.append(f"switchs {n} {c} {' '.join(cs)}"); self.add_stream(n, self.t(*cs))
         elif kind == "switchc" and c:
             cs = [self.C() for _ in range(r.randint(2, 4))]
-            n = self.fresh("c"); L.append(f"switchc {n} {c} {' '.join(cs)}"); self.add_cell(n, self.t(c, *cs))
+            n = self.fresh("c"); L.append(f"switchc {n} {c} {' '.join(cs)}"); self.add_cell(n, self.t(c, *cs)); self.swc.add(n)
         elif kind == "router" and s:
             rn = self.fresh("r"); L.append(f"router {rn} {s} {r.randint(0, 2)}"); self.routers.append((rn, s))
             for _ in range(r.randint(1, 3)):
@@ -212,7 +217,10 @@ class Gen:
         if r.random() < p["samples"] and self.cells:
             body.insert(r.randrange(len(body) + 1), f"sample {self.C()}")
         if r.random() < p["lazies"] and self.cells:
-            z = self.fresh("z"); body.insert(r.randrange(len(body) + 1), f"lazy {z} {self.C()}"); self.lazies.append(z)
+            c = self.C()
+            # lazies of switch_c results (and of cells computed from them) are outside C17's list: see DESIGN.md
+            if c not in self.swc and not (c in self.clone_of and self.clone_of[c] in self.swc):
+                z = self.fresh("z"); body.insert(r.randrange(len(body) + 1), f"lazy {z} {c}"); self.lazies.append(z)
         if r.random() < p["posts"] and self.cells:
             body.insert(r.randrange(len(body) + 1), f"post {self.fresh('p')} {self.C()}")
         if len(body) == 1 and body[0].startswith("send") and r.random() > p["nest"] and not intxn:
@@ -272,11 +280,20 @@ class Gen:
             if cands:
                 x = r.choice(cands); y = self.fresh("s" if x in self.streams else "c"); L.append(f"clone {y} {x}")
                 (self.streams if x in self.streams else self.cells).append(y); self.taint[y] = set(self.taint.get(x, ()))
+                if x in self.swc: self.swc.add(y)
         if r.random() < p["gcs"]: L.append("gc")
         if r.random() < p["posts"] * 0.3 and self.cells: L.append(f"post {self.fresh('p')} {self.C()}")
 
     def malformed(self):
         r, L = self.r, self.lines
+        closes = [i for i, l in enumerate(L) if l.startswith("sloopclose") or l.startswith("cloopclose")]
+        if closes and r.random() < 0.5:
+            i = r.choice(closes)
+            if r.random() < 0.5 or L[i].startswith("sloopclose"):
+                L.insert(i + 1, L[i])                       # loop closed twice
+            else:
+                L.insert(i, f"sample {L[i].split()[1]}")   # CellLoop sampled before it is looped
+            return
         for _ in range(r.randint(1, 3)):
             k = r.randrange(8)
             pos = r.randrange(len(L) + 1)
